@@ -4,7 +4,7 @@
    schedule, and along every path of the composed system of Model/RunHandoff.v (every interleaving of
    executors, collector and run loop).  The execution log only ever grows by steps none of whose
    tasks has a failing pre-handler. *)
-From Eino Require Import Base.Util Model.TaskMgr Model.Confluence Model.RunHandoff.
+From Eino Require Import Base.Util Model.TaskMgr Model.Confluence Model.EagerSkip Model.RunHandoff.
 From Eino Require Import Proofs.Confluence Proofs.Eager Proofs.RunHandoff.
 
 Definition clean_log (g : graph) (log : exec_log) : Prop :=
@@ -120,6 +120,38 @@ Proof.
 Qed.
 
 End Clean.
+
+
+(* Workflows with branches / control-only / data-only edges (Model/EagerSkip.v): the same *)
+Lemma scalc_next_tasks_in fixed G s cv ts s' :
+  scalc_next fixed G s cv = STasks ts s' -> tasks_in (sg_nodes G) ts.
+Proof.
+  unfold scalc_next. destruct (nmem END _); [discriminate|].
+  destruct (find is_end _) as [[n v]|]; [discriminate|]. intros H; inversion H; subst.
+  intros t Ht. apply in_map_iff in Ht. destruct Ht as (n & <- & Hn). simpl.
+  apply filter_In in Hn. exact (proj1 Hn).
+Qed.
+
+Lemma srun_eager_clean fixed pick G : NoDup (map n_id (sg_nodes G)) -> forall fuel s running log,
+  clean_log (sg_nodes G) log -> clean_log (sg_nodes G) (snd (fst (srun_eager fixed pick G fuel s running log))).
+Proof.
+  intros Hnd. induction fuel as [|f IH]; intros s running log Hc; simpl; [exact Hc|].
+  destruct (nth_error running _) as [t|]; [|exact Hc].
+  destruct (failed t); [exact Hc|].
+  destruct (scalc_next fixed G s (run_task t)) as [v| |ts s'] eqn:Ec; [exact Hc|exact Hc|].
+  destruct (existsb prefail ts) eqn:Epf; [exact Hc|].
+  apply IH. apply clean_app; try assumption. eapply scalc_next_tasks_in; exact Ec.
+Qed.
+
+Lemma seager_clean fixed pick G fuel : NoDup (map n_id (sg_nodes G)) ->
+  clean_log (sg_nodes G) (snd (fst (seager fixed pick G fuel))).
+Proof.
+  intros Hnd. unfold seager. destruct (scalc_next fixed G sinit (START, input_val)) as [v| |ts s] eqn:E;
+    [apply clean_nil|apply clean_nil|].
+  destruct (existsb prefail ts) eqn:Epf; [apply clean_nil|].
+  apply srun_eager_clean; [exact Hnd|]. change (log_of ts) with ([] ++ log_of ts).
+  apply clean_app; try assumption; [apply clean_nil|]. eapply scalc_next_tasks_in; exact E.
+Qed.
 
 (* a failing pre-handler in a batch step: the run fails, nothing of the step is started *)
 Lemma run_batch_prefail ord m g f s tasks log :
